@@ -195,6 +195,9 @@ func c14World(tp *Tape, env *Env) (*Plan, *Violation) {
 func c14ParserExec(lines []string, st *Stats) *Violation {
 	var reused markup.LineParser
 	nErr, nAttr := 0, 0
+	var kept []parseCanon
+	var keptCanon []string
+	var keptIdx []int
 	for i, l := range lines {
 		var fresh markup.LineParser
 		a, b := parseWith(&reused, l), parseWith(&fresh, l)
@@ -211,6 +214,18 @@ func c14ParserExec(lines []string, st *Stats) *Violation {
 			nErr++
 		}
 		nAttr += len(a.Attrs)
+		// a host may keep a result and read it later (a backlog): it is still the result of parsing THAT line
+		kept = append(kept, a)
+		keptCanon = append(keptCanon, canonJSON(b))
+		keptIdx = append(keptIdx, i)
+		for j := range kept {
+			if c := canonJSON(kept[j]); c != keptCanon[j] {
+				return &Violation{Clause: "C14.parser-history", OpIndex: keptIdx[j], Expected: keptCanon[j], Observed: c, Note: fmt.Sprintf("the result of parsing line %d (%q), kept by the caller, changed when line %d (%q) was parsed on the same parser", keptIdx[j], lines[keptIdx[j]], i, l)}
+			}
+		}
+		if len(kept) > 6 {
+			kept, keptCanon, keptIdx = kept[1:], keptCanon[1:], keptIdx[1:]
+		}
 	}
 	if st != nil {
 		st.inc("cases", 1)
